@@ -63,7 +63,7 @@ func c15Walk(nc *nats.Conn, parent string, d int, out *[]c15Node) error {
 		return fmt.Errorf("too deep")
 	}
 	kids, err := client.GetNodes(nc, parent, "all", "", false)
-	if err != nil {
+	if noteTmo(err) != nil {
 		return err
 	}
 	for _, k := range kids {
